@@ -78,11 +78,20 @@ def _make_exc(name, msg):
     raise AssertionError(name)
 
 
-def execute(ctx, script):
+def execute(ctx, scripts):
+    """scripts: 1-3 source scripts; every one is a separate authenticate() call on the SAME strategy
+    object (history: the outcome of a call must not depend on earlier calls)."""
+    holder = {}
+    scripts = [[tuple(s) for s in sc] for sc in scripts]
+    jcase = {"scripts": scripts}
+    for n, script in enumerate(scripts):
+        if not _one_call(ctx, holder, script, jcase, n, len(scripts)):
+            return
+
+
+def _one_call(ctx, holder, script, jcase, call_no, ncalls):
     from paramiko.auth_strategy import AuthFailure, AuthResult, AuthSource, AuthStrategy
 
-    script = [tuple(s) for s in script]
-    jcase = {"script": script}
     k = None
     for i, s in enumerate(script):
         if s[0] == "ok":
@@ -93,7 +102,12 @@ def execute(ctx, script):
     classes = ["len:%d" % len(script), "all-fail" if k is None else "success@%d" % k]
     if k is not None and k < len(script) - 1:
         classes.append("sources-after-success")
-    ctx.case(jcase, nontrivial, classes)
+    if call_no == 0:
+        if ncalls > 1:
+            nontrivial = True
+            classes.append("history:%d-calls-on-one-strategy" % ncalls)
+        ctx.case(jcase, nontrivial, classes)
+    jcase = dict(jcase, failing_call=call_no)
 
     log = []
     transport = object()
@@ -120,11 +134,15 @@ def execute(ctx, script):
 
     class Strat(AuthStrategy):
         def get_sources(self):
-            for s in sources:
-                log.append(("pull", s.idx))
+            for s in holder["sources"]:
+                holder["log"].append(("pull", s.idx))
                 yield s
 
-    strat = Strat(ssh_config=None)
+    if "strat" not in holder:
+        holder["strat"] = Strat(ssh_config=None)
+    holder["sources"] = sources
+    holder["log"] = log
+    strat = holder["strat"]
     raised = None
     ret = None
     try:
@@ -133,7 +151,7 @@ def execute(ctx, script):
         raised = e
     except Exception as e:
         ctx.violation("authenticate-raises", "%s:%s" % (type(e).__name__, "all-fail" if k is None else "with-success"), jcase, repr(e))
-        return
+        return False
 
     upto = k if k is not None else len(script) - 1
     want_calls = [("call", i, True) for i in range(upto + 1)]
@@ -147,57 +165,58 @@ def execute(ctx, script):
         else:
             bucket = "order-or-count"
         ctx.violation("call-order", bucket, jcase, "calls %r expected %r" % (got_calls, want_calls))
-        return
+        return False
     if pulls != list(range(upto + 1)):
         ctx.violation("call-order", "pulled-after-success" if len(pulls) > upto + 1 else "pull-order", jcase, "pulled %r expected %r" % (pulls, list(range(upto + 1))))
-        return
+        return False
     # interleaving: pull i directly before call i
     want_log = []
     for i in range(upto + 1):
         want_log += [("pull", i), ("call", i, True)]
     if log != want_log:
         ctx.violation("call-order", "interleaving", jcase, "log %r" % (log,))
-        return
+        return False
 
     if k is None:
         if raised is None:
             ctx.violation("outcome", "no-AuthFailure-when-all-fail:%s" % ("empty" if not script else "nonempty"), jcase, "returned %r" % (ret,))
-            return
+            return False
         result = getattr(raised, "result", None)
     else:
         if raised is not None:
             ctx.violation("outcome", "AuthFailure-despite-success", jcase, "raised %r" % (raised,))
-            return
+            return False
         result = ret
 
     if not isinstance(result, AuthResult) or not isinstance(result, list):
         ctx.violation("result-shape", "not-an-AuthResult", jcase, "result %r" % (result,))
-        return
+        return False
     if getattr(result, "strategy", None) is not strat:
         ctx.violation("result-shape", "strategy-attribute", jcase, "result.strategy %r" % (getattr(result, "strategy", None),))
-        return
+        return False
     if len(result) != upto + 1:
         ctx.violation("result-content", "length:%s" % ("short" if len(result) < upto + 1 else "long"), jcase, "result %r for %d attempted sources" % (list(result), upto + 1))
-        return
+        return False
     for i, item in enumerate(result):
         try:
             src, res = item.source, item.result
         except AttributeError:
             ctx.violation("result-shape", "not-a-SourceResult", jcase, "item %r" % (item,))
-            return
+            return False
         if src is not sources[i]:
             ctx.violation("result-content", "source-identity-or-order", jcase, "item %d source %r expected %r" % (i, src, sources[i]))
-            return
+            return False
         if res is not sources[i].outcome:
             kind = "exception" if script[i][0] == "raise" else "return-value"
             ctx.violation("result-content", "outcome-identity:%s" % kind, jcase, "item %d result %r expected %r" % (i, res, sources[i].outcome))
-            return
+            return False
+    return True
 
 
 def run(ctx):
     ctx.set_budget(60, 840)
-    ctx.explore(case_st, lambda c: execute(ctx, c), ctx.scale(6000, 120000))
+    ctx.explore(st.lists(case_st, min_size=1, max_size=3), lambda c: execute(ctx, c), ctx.scale(5000, 100000))
 
 
 def replay(ctx, case):
-    execute(ctx, case["script"])
+    execute(ctx, case["scripts"] if "scripts" in case else [case["script"]])
